@@ -86,6 +86,11 @@ CLAIMED = {
          "Values reachable in <= 2 (quick) / 3 (thorough) field assignments over attributes, optional attributes, pointer attributes, maps, slices, single pointer block, repeated labelled blocks by value and by pointer, nested blocks with two labels; 12 escape-relevant strings / map keys.",
          "Equality modulo nil-vs-empty and NFC; JSON documents are decoded in literal-only mode (no evaluation context).",
          "DESIGN.md §4 C16"),
+ "C17": ("spec/SplatConc.tla + spec/Trace_Splat.tla",
+         "SplatConc.tla model-checked exhaustively (ReadOwn, NoLeak; shared-context config must fail); TLC simulation behaviours forced onto real goroutines through build-tag hooks used as a scheduler gate; free-running perturbed runs recorded under the values lock and validated by TLC against the spec (trace validation, with a corrupted-trace rejection smoke test); 16-goroutine concurrent decoding of shared native/JSON/dynblock bodies; race detector build",
+         "Every interleaving of the lock-protected symbol operations of 3 goroutines on a nested splat is explored on the model; 150 (quick) / 3000 (thorough) TLC schedules replayed deterministically on hclsyntax.AnonSymbolExpr; 300 / 4000 recorded runs of 4 goroutines validated; 300 / 3000 rounds x 16 goroutines x 3 body kinds compared with the sequential result.",
+         "Hooks: build tag verif (hclsyntax/verif_hook_on.go). Weak-memory effects and races inside one operation are left to the Go race detector.",
+         "DESIGN.md §4 C17"),
  "C18": ("spec/DynBlock.tla + spec/HclDec.tla (MC_C18)",
          "TLC enumerates bodies mixing static and dynamic blocks with the specification's written-out static body (DynBlock!WrittenOut) and decoded value; the real dynblock.Expand + hcldec.Decode is compared with decoding the written-out body, with the model value, under unknown for_each, and in the scope pruned to the reported variables",
          "Bodies of <= 2 items (quick) / up to 3 (thorough) from ~90 dynamic-block templates (all iterable kinds incl. empty, null, non-iterable; default/custom iterators; labels from the iterator; nested static and dynamic content with outer-iterator references and shadowing) x 8 specs (list, tuple, set, single block, map, object, nested tuple-in-tuple, min/max).",
@@ -139,6 +144,7 @@ def main():
             {"name": "HclWriteTree", "path": "spec/HclWriteTree.tla", "serves_properties": ["C12"], "kind_free_text": "TLA+ edit-history machine of the hclwrite tree; TLC state dump streamed to a Go replayer"},
             {"name": "HclDec", "path": "spec/HclDec.tla", "serves_properties": ["C03", "C08", "C18"], "kind_free_text": "TLA+ model of hcldec spec kinds: ImpliedType, implied schema, Decode, JSON expressibility; generator MC_Dec; replayers harness/dec, c03, c08"},
             {"name": "Json8259", "path": "spec/Json8259.tla", "serves_properties": ["C13"], "kind_free_text": "TLA+ pushdown recogniser for RFC 8259 over byte classes; generator MC_C13"},
+            {"name": "SplatConc", "path": "spec/SplatConc.tla", "serves_properties": ["C17"], "kind_free_text": "TLA+ model of concurrent splat evaluation over the shared syntax tree; Trace_Splat.tla validates recorded hook traces; schedules replayed through a blocking pre-lock hook"},
             {"name": "GoHcl", "path": "spec/GoHcl.tla", "serves_properties": ["C16"], "kind_free_text": "TLA+ value generator and abstract encode/decode law for the gohcl struct family"},
             {"name": "HclLexPos", "path": "spec/HclLexPos.tla", "serves_properties": ["C14"], "kind_free_text": "TLA+ position-accounting machine (byte, line, grapheme column) over character classes; generator MC_C14"},
             {"name": "HclLexStr", "path": "spec/HclLexStr.tla", "serves_properties": ["C11"], "kind_free_text": "TLA+ model of quoted string literals over character classes (Escape/Unescape law) with value generator MC_C11"},
